@@ -116,6 +116,34 @@ check('C19',
       'machine-checked proof in Coq (Z, C) of a carrier-generic model + binary64 instance evaluated against the code + numerical oracle',
       'DESIGN.md 5 C19')
 
+check('C03',
+      'Coq theorems (Props/C03.v). Index logic (Z/Q, axiom-free, every N >= 0, every rank and sample shape, every rational shift): the range '
+      'the code zeroes for an element with shift a (through CPython slice normalisation) is EXACTLY the set of positions whose source n - a '
+      'lies outside [0, N-1] - the first ceil(s) samples for s >= 0, the last ceil(|s|) for s < 0; every valid multi-index of the sample '
+      'shape is visited and gets the range of ITS broadcast shift (fewer / length-1 axes included); crop=True keeps exactly the complement '
+      'of the union of the zeroed edges and is the C01 ledger slice x[start:max(start, len+stop)]; the model meets the executable clause '
+      'zero_ok that the monitor evaluates on the implementation\'s zero mask. Values (complex numbers, Coquelicot, every n >= 1, through the '
+      'DFT algebra of Lib/Dft.v): a whole-sample shift returns x(m-s) where 0 <= m-s < n and 0 elsewhere - never a wrapped sample; '
+      '|s| >= n gives zero; for any ramp (fractional shifts) a tone at bin k0 is multiplied by the ramp value at k0. PARTIAL: the '
+      'fractional-shift values of arbitrary data are compared numerically with an independent O(N^2) longdouble oracle and with the '
+      'binary64 instance of the same Gallina term (scipy.fft = DFT is an assumption).',
+      'Trusted: Coq kernel, stdlib real-number axioms for the value theorems, kernel floats for the executing instance; numpy broadcasting/'
+      'nditer order as transcribed; scipy.fft = DFT validated numerically each run; all-|s| <= 1e-8 shift arrays are returned unchanged '
+      'by design (np.allclose early exit) and are outside the zero clause.',
+      'machine-checked proof in Coq (Z/Q index logic, C values) + exact zero-mask correspondence (vm_compute) + numerical oracle',
+      'DESIGN.md 5 C03')
+check('C04',
+      'Coq theorems (Props/C04.v): the bins zeroed for an element shifted by a bins are exactly the fftshift-ordered bins j whose source '
+      'j - a lies outside the band, for every element of the sample shape incl. scalar and broadcast shifts (index logic shared with C03, '
+      'axiom-free); over the complex numbers, every n >= 1: mixing with exp(2 pi i b m/n) is the circular move of the DFT (modulation '
+      'theorem) and, after the zero fill, fftshift-ordered bin j holds the input\'s bin j - b or 0 when that is outside the band; '
+      '|b| >= n gives an all-zero spectrum. PARTIAL: fractional-bin shifts of arbitrary data, dtype and metadata preservation are decided '
+      'by the correspondence run (binary64 instance of the same Gallina term, exact zero-bin table) and an independent longdouble oracle.',
+      'Trusted: Coq kernel, stdlib real-number axioms, kernel floats; numpy fftshift/broadcasting as transcribed; scipy.fft = DFT validated '
+      'numerically; a requested shift within 1e-9 of a whole bin leaves the boundary bin unconstrained (property text).',
+      'machine-checked proof in Coq (Z/Q index logic, C values) + exact zero-bin correspondence (vm_compute) + numerical oracle',
+      'DESIGN.md 5 C04')
+
 ALL = [f'C{i:02d}' for i in range(1, 21)]
 
 def main():
